@@ -92,3 +92,32 @@ VARIANTS = [
       "if (min_bin != 1) or ((max_bin - min_bin + 1) != bin_count):",
       "if (1 != min_bin) or (max_bin != bin_count):", "silent"),
 ]
+
+VARIANTS += [
+    V("dimensions-side-by-side", F,
+      "            if ((real_width != width) or (real_height != height)) \\\n"
+      "                    and ((real_width != height) or (real_height != "
+      "width)):",
+      "            if (real_width not in (width, height)) \\\n"
+      "                    or (real_height not in (width, height)):",
+      "fire", "D4.1", "seed C04-dimensions-checked-side-by-side: a w x w "
+      "square passes for a w x h item"),
+    V("dimensions-by-tuple-membership", F,
+      "            if ((real_width != width) or (real_height != height)) \\\n"
+      "                    and ((real_width != height) or (real_height != "
+      "width)):",
+      "            if (real_width, real_height) not in ((width, height), "
+      "(height, width)):", "silent", "",
+      "a correct rewrite through tuple membership (component-wise "
+      "equalities)"),
+    V("dimensions-by-set-of-sizes", F,
+      "            if ((real_width != width) or (real_height != height)) \\\n"
+      "                    and ((real_width != height) or (real_height != "
+      "width)):",
+      "            if sorted((real_width, real_height)) != sorted((width, "
+      "height)):", "undecided", "",
+      "a correct rewrite outside the term language (sorted tuples): the "
+      "clause has only this guard, the run ends undecided, not as a "
+      "violation"),
+]
+
